@@ -25,6 +25,8 @@ PlanIsSilent(s) == Plan(s) # <<>> /\ \A i \in 1..Len(Plan(s)) : SilentEntry(Plan
 NoPlan == CHOOSE j \in 1..Len(Plans) : Plans[j] = <<>>
 
 FInit == Init /\ T = InitS(S.pi, NoPlan) /\ tready = <<"task">>
+\* the fault was injected while the process was being constructed (on_create, or the first announcement)
+CtorFault(s) == Fired(s) /\ (FHook(s) = "on_create" \/ (FHook(s) = "bcast" /\ Faults(s)[1][3] = 1))
 
 Twin(r) == IF PlanIsSilent(S) THEN T' = r.s /\ tready' = r.rdy ELSE UNCHANGED <<T, tready>>
 
@@ -53,11 +55,15 @@ FSpec == FInit /\ [][FNext]_fvars
 \* (a) user code / lifecycle hook after construction: EXCEPTED with exactly that exception, closed, future
 \*     raises it, stepping returned normally, nothing escaped into the loop
 C03_UserFault ==
-  (CleanFor("C03") /\ Quiescent /\ Fired(S) /\ FHook(S) \notin SilentHooks \cup PPHooks /\ ~PlanIsSilent(S)) =>
+  (CleanFor("C03") /\ Quiescent /\ Fired(S) /\ ~CtorFault(S) /\ FHook(S) \notin SilentHooks \cup PPHooks /\ ~PlanIsSilent(S)) =>
      /\ S.st = "EXCEPTED" /\ S.cur.val = FExc(S)
      /\ S.closed /\ S.fut = [st |-> "exc", val |-> FExc(S)]
      /\ S.task.pc = "done"
      /\ \A i \in 1..Len(S.log) : S.log[i][1] # "cbtaskfailed"
+
+\* (a') ... during construction: the exception propagates to the caller of the constructor (no process, nothing scheduled)
+C03_CtorFault == (CtorFault(S) /\ ~PlanIsSilent(S)) =>
+                   (~S.born /\ S.log[Len(S.log)] = <<"ctor-raise", FExc(S)>> /\ ready = <<>>)
 
 \* (b) a listener (or a cleanup callable) that raises changes nothing: same state as the twin, up to the fault marker
 StripFault(s) == [s EXCEPT !.log = SelectSeq(@, LAMBDA e : e[1] # "fault"), !.pl = NoPlan]
